@@ -213,7 +213,10 @@ func invExprEntries() []invEntry {
 	return []invEntry{
 		{"Get", func(o any, k int) string { return Render(x(o).Get(invDoc(k))) }},
 		{"First", func(o any, k int) string { return Render(x(o).First(invDoc(k))) }},
-		{"FirstFound", func(o any, k int) string { v, ok := x(o).FirstFound(invDoc(k)); return fmt.Sprintf("%s %v", Render(v), ok) }},
+		{"FirstFound", func(o any, k int) string {
+			v, ok := x(o).FirstFound(invDoc(k))
+			return fmt.Sprintf("%s %v", Render(v), ok)
+		}},
 		{"Has", func(o any, k int) string { return fmt.Sprint(x(o).Has(invDoc(k))) }},
 		{"Locate", func(o any, k int) string { return fmt.Sprint(x(o).Locate(invDoc(k), 0)) }},
 		{"Locate1", func(o any, k int) string { return fmt.Sprint(x(o).Locate(invDoc(k), 1)) }},
@@ -225,13 +228,33 @@ func invExprEntries() []invEntry {
 		{"GetNodes", func(o any, k int) string { return renderNodes(x(o).GetNodes(invNode(k))...) }},
 		{"FirstNode", func(o any, k int) string { return renderNodes(x(o).FirstNode(invNode(k))) }},
 		{"Set", func(o any, k int) string { d := invDoc(k); err := x(o).Set(d, "SET"); return after(d, errText(err)) }},
-		{"SetOne", func(o any, k int) string { d := invDoc(k); err := x(o).SetOne(d, int64(k)); return after(d, errText(err)) }},
+		{"SetOne", func(o any, k int) string {
+			d := invDoc(k)
+			err := x(o).SetOne(d, int64(k))
+			return after(d, errText(err))
+		}},
 		{"Del", func(o any, k int) string { d := invDoc(k); err := x(o).Del(d); return after(d, errText(err)) }},
 		{"DelOne", func(o any, k int) string { d := invDoc(k); err := x(o).DelOne(d); return after(d, errText(err)) }},
-		{"Remove", func(o any, k int) string { d := invDoc(k); r, err := x(o).Remove(d); return after(d, Render(r)+errText(err)) }},
-		{"RemoveOne", func(o any, k int) string { d := invDoc(k); r, err := x(o).RemoveOne(d); return after(d, Render(r)+errText(err)) }},
-		{"Modify", func(o any, k int) string { d := invDoc(k); r, err := x(o).Modify(d, mod); return after(d, Render(r)+errText(err)) }},
-		{"ModifyOne", func(o any, k int) string { d := invDoc(k); r, err := x(o).ModifyOne(d, mod); return after(d, Render(r)+errText(err)) }},
+		{"Remove", func(o any, k int) string {
+			d := invDoc(k)
+			r, err := x(o).Remove(d)
+			return after(d, Render(r)+errText(err))
+		}},
+		{"RemoveOne", func(o any, k int) string {
+			d := invDoc(k)
+			r, err := x(o).RemoveOne(d)
+			return after(d, Render(r)+errText(err))
+		}},
+		{"Modify", func(o any, k int) string {
+			d := invDoc(k)
+			r, err := x(o).Modify(d, mod)
+			return after(d, Render(r)+errText(err))
+		}},
+		{"ModifyOne", func(o any, k int) string {
+			d := invDoc(k)
+			r, err := x(o).ModifyOne(d, mod)
+			return after(d, Render(r)+errText(err))
+		}},
 		{"String", func(o any, k int) string { return x(o).String() }},
 		{"BracketString", func(o any, k int) string { return x(o).BracketString() }},
 		{"Append", func(o any, k int) string { return string(x(o).Append(make([]byte, 0, k), k%2 == 0)) }},
@@ -271,7 +294,11 @@ func invFilterEntries() []invEntry {
 			path(o).Walk(invDoc(k), func(p jp.Expr, nodes []any) { w = append(w, p.String()+"="+Render(nodes[len(nodes)-1])) })
 			return strings.Join(w, ";")
 		}},
-		{"in-path.Del", func(o any, k int) string { d := invDoc(k); err := path(o).Del(d); return errText(err) + " DATA=" + Render(d) }},
+		{"in-path.Del", func(o any, k int) string {
+			d := invDoc(k)
+			err := path(o).Del(d)
+			return errText(err) + " DATA=" + Render(d)
+		}},
 		{"in-path.Remove", func(o any, k int) string {
 			d := invDoc(k)
 			r, err := jp.Expr{jp.Root('$'), jp.Child("items"), f(o)}.Remove(d)
@@ -376,7 +403,9 @@ func invRecomposer() any {
 
 func invRecomposerEntries() []invEntry {
 	r := func(o any) *alt.Recomposer { return o.(*alt.Recomposer) }
-	res := func(v any, err error) string { return Render(alt.Decompose(v, &ojg.Options{CreateKey: "^", FullTypePath: true})) + " E=" + errText(err) }
+	res := func(v any, err error) string {
+		return Render(alt.Decompose(v, &ojg.Options{CreateKey: "^", FullTypePath: true})) + " E=" + errText(err)
+	}
 	return []invEntry{
 		{"Recompose{^:full RTwin}", func(o any, k int) string {
 			return res(r(o).Recompose(map[string]any{"^": fullName(RTwin{}), "level": int64(k)}))
@@ -486,7 +515,9 @@ func invConverterEntries() []invEntry {
 	}
 	return []invEntry{
 		{"Convert", func(o any, k int) string { return Render(o.(*ojg.Converter).Convert(data(k))) }},
-		{"Convert/scalar", func(o any, k int) string { return Render(o.(*ojg.Converter).Convert(fmt.Sprintf("2022-01-0%dT00:00:00Z", k%9+1))) }},
+		{"Convert/scalar", func(o any, k int) string {
+			return Render(o.(*ojg.Converter).Convert(fmt.Sprintf("2022-01-0%dT00:00:00Z", k%9+1)))
+		}},
 		{"Convert/list", func(o any, k int) string { return Render(o.(*ojg.Converter).Convert([]any{data(k), data(k + 1)})) }},
 	}
 }
@@ -530,7 +561,6 @@ func invPerm(r *lib.Rng, n int) []int {
 	return p
 }
 
-
 // SharedInventory is the deterministic half: for every object and every ORDERED pair of entry points
 // (e1, e2) — one goroutine, nothing concurrent — caller 1 uses e1 on its data, caller 2 then uses e2 on
 // other data through the same object: caller 2 must get what e2 returns on an object nobody has used,
@@ -557,10 +587,13 @@ func (run *Run) SharedInventory(emit func(lib.Finding)) int {
 				}
 				e1, e2 := e1, e2
 				_ = invGuard(func() string { return e1.call(shared, 1) })
+				if (i+j)%2 == 1 {
+					// every other pair: caller 0 has used e1 as well (a defect that needs two earlier calls)
+					_ = invGuard(func() string { return e1.call(shared, 0) })
+				}
 				mid := ob.fp(shared)
 				got := invGuard(func() string { return e2.call(shared, 2) })
 				after := ob.fp(shared)
-				_ = i
 				if got != alone[j] && !reported["r"+e1.name] {
 					reported["r"+e1.name] = true
 					emit(lib.Finding{Kind: "violation", Class: "shared-object-result:" + ob.kind + ":" + e1.name + "-then-" + e2.name,
